@@ -6,7 +6,7 @@ seeded/<id>/<n>/result.json, and the worktree is removed.
 Usage: run_seeded.py [-j N] [ID | ID/n ...]"""
 import json, os, subprocess, sys, glob, shutil, concurrent.futures as cf
 ROOT = os.path.dirname(os.path.dirname(os.path.abspath(__file__)))
-REPO = "/repo"
+REPO = os.environ.get("VP_RUN_REPO") or "/repo"   # a vp run --with-repo snapshot, or the repository itself
 def sh(*a, **k): return subprocess.run(a, capture_output=True, text=True, **k)
 args = sys.argv[1:]; jobs = 3
 if args and args[0] == "-j": jobs = int(args[1]); args = args[2:]
